@@ -39,7 +39,7 @@ const TARGET_PORT: u16 = 10101;
 pub fn gen_c10(seed: u64, thorough: bool) -> Plan {
     let mut g = Gen::new(seed, 10);
     let ss22: Vec<&str> = SS_CIPHERS.iter().copied().filter(|c| is_2022(c)).collect();
-    let kinds = ["ts", "type", "replay", "replay", "udp-ts", "udp-type", "vmess-ts", "resp-type", "resp-stale", "resp-salt", "vmess-resp-auth", "vmess-resp-keys"];
+    let kinds = ["ts", "type", "replay", "replay", "udp-ts", "udp-type", "vmess-ts", "resp-type", "resp-stale", "resp-salt", "vmess-resp-auth", "vmess-resp-keys", "resp-early"];
     let kind = kinds[seed as usize % kinds.len()];
     let round = seed as usize / kinds.len();
     let (proto, cipher) = if kind.starts_with("vmess") { (Proto::Vmess, VMESS_CIPHERS[round % 2]) } else { (Proto::Shadowsocks, ss22[round % ss22.len()]) };
@@ -379,7 +379,51 @@ pub fn execute_c10(plan: &Plan) -> Outcome {
                 if !settle(|| tcp_listening(CLIENT_PORT)).await {
                     return (Some(format!("client did not come up (finished={})", client.is_finished())), obs);
                 }
-                for control in [false, true] {
+                if kind == "resp-early" {
+                    // the server speaks first: the application has opened its tunnel and is silent; a response that is well sealed
+                    // and fresh but belongs to no request of this client (it echoes some other salt) arrives on the connection the
+                    // client has made. Nothing of it may reach the application; the flow then carries on or ends, but never with
+                    // those bytes.
+                    let mut app = spawn_scoped(async move {
+                        let Ok(mut s) = TcpStream::connect(client_addr()).await else { return Vec::new() };
+                        s.set_own_styles(0, 0);
+                        let mut r = [0u8; 10];
+                        if s.write_all(&[5, 1, 0]).await.is_err() || s.read_exact(&mut r[..2]).await.is_err() {
+                            return Vec::new();
+                        }
+                        let mut req = vec![5, 1, 0, 1];
+                        req.extend_from_slice(&TARGET_IP);
+                        req.extend_from_slice(&TARGET_PORT.to_be_bytes());
+                        if s.write_all(&req).await.is_err() || s.read_exact(&mut r).await.is_err() {
+                            return Vec::new();
+                        }
+                        let mut got = Vec::new();
+                        let mut buf = [0u8; 1024];
+                        while let Ok(Ok(n)) = tokio::time::timeout(Duration::from_secs(4), s.read(&mut buf)).await {
+                            if n == 0 {
+                                break;
+                            }
+                            got.extend_from_slice(&buf[..n]);
+                        }
+                        got
+                    });
+                    let mut connected = false;
+                    if let Ok(Ok((mut s, _))) = tokio::time::timeout(Duration::from_secs(3), listener.accept()).await {
+                        connected = true;
+                        let key = c.client_keys.last().cloned().unwrap_or_default();
+                        let n = key_len(&c.cipher);
+                        let (salt, echoed) = (g.bytes(n), g.bytes(n));
+                        let (w, _) = refimpl::ss2022::response(&c.cipher, &key, &salt, &echoed, b"early-answer-to-nobody", 1, unix_now());
+                        let _ = s.write_all(&w).await;
+                        tokio::time::sleep(Duration::from_secs(5)).await;
+                    }
+                    let released = (&mut app.0).await.unwrap_or_default();
+                    // (a client that dials only when the application sends its first byte has no connection to write into: nothing to judge)
+                    if connected {
+                        obs.push(("resp-early: a sealed, fresh response that echoes a foreign request salt, presented before the application has sent anything".to_owned(), false, !released.is_empty()));
+                    }
+                }
+                for control in if kind == "resp-early" { vec![true] } else { vec![false, true] } {
                     let sopts = if control {
                         ServerOpts::default()
                     } else {
